@@ -55,11 +55,15 @@ theorem no_stranding {q : Nat} {s : St} (h : Reachable q s) (hd : s.done = true)
     (hq : quiescent s = true) : ∀ c ∈ s.handed, deliveredCount s c = 1 ∨ c ∈ s.dropped := by
   intro c hc
   have h1 := (single_owner h).1 c hc
-  have g := (gr_reachable h).go
-  obtain ⟨hs, ho⟩ := g.doneSent hd
-  simp only [quiescent, Bool.and_eq_true, Bool.or_eq_true, beq_iff_eq] at hq
+  obtain ⟨hsn, ho, hrd⟩ := quiescent_iff hq
+  -- a registered item would belong to a send still in progress, and there is none
+  have hs : s.sent = [] := by
+    apply List.eq_nil_iff_forall_not_mem.2
+    intro p hp
+    obtain ⟨x, hx, _⟩ := (good_reachable h).ds hd p hp
+    rw [hsn] at hx; cases hx
   have hr : s.reader.calls = [] := by
-    rcases hq.2 with e | e <;> rw [e] <;> rfl
+    rcases hrd with e | e <;> rw [e] <;> rfl
   simp only [places, outstanding, hs, ho, hr, List.flatMap_nil, List.count_nil] at h1
   by_cases hdc : deliveredCount s c = 1
   · exact Or.inl hdc
@@ -73,6 +77,23 @@ example : ∃ s, run (init 2) [.queueDirect 1, .queueBatched 2, .queueBatched 3,
       .write .writer true .err] = some s ∧
     s.done = true ∧ quiescent s = true ∧ s.handed = [1, 2, 3, 4] ∧
     deliveredCount s 1 = 1 ∧ deliveredCount s 2 = 1 ∧ deliveredCount s 3 = 0 ∧ s.dropped = [3, 4] := by
+  refine ⟨_, rfl, ?_⟩
+  decide
+
+/-- a call registered *after* the failure sweep (`queueDirectClosing 2`: `Close()` runs while the
+request is being serialised) is completed by its own sender when its write fails — the only
+possible outcome of a `Write` on the closed connection (`.write … .ok` is not enabled) -/
+example : ∃ s, run (init 2) [.queueDirect 1, .queueDirectClosing 2, .write (.direct 1) true .err,
+      .write (.direct 2) true .err] = some s ∧
+    s.done = true ∧ quiescent s = true ∧ s.handed = [1, 2] ∧ s.sent = [] ∧
+    deliveredCount s 1 = 1 ∧ deliveredCount s 2 = 1 ∧
+    s.delivered = [⟨1, .connErr, none⟩, ⟨2, .connErr, none⟩] := by
+  refine ⟨_, rfl, ?_⟩
+  decide
+
+example : ∃ s, run (init 2) [.queueDirect 1, .queueDirectClosing 2, .write (.direct 1) true .err] = some s ∧
+    s.done = true ∧ s.sent = [(2, .single 2)] ∧ deliveredCount s 2 = 0 ∧
+    step s (.write (.direct 2) true .ok) = none ∧ step s (.write (.direct 2) false .ok) = none := by
   refine ⟨_, rfl, ?_⟩
   decide
 
@@ -107,7 +128,7 @@ example : ∃ s, run (init 2) [.queueDirect 1, .queueUnsendable 4, .queueBatched
   refine ⟨_, rfl, ?_⟩
   decide
 
-/-- After the failure, a call handed to the connection (through any of the three entry points) is
+/-- After the failure, a call handed to the connection (through any of the four entry points) is
 refused at once with a connection-level error, and nothing else changes. -/
 theorem refused_after_done {s : St} {c : Nat} (hd : s.done = true) (hc : c ∉ s.handed)
     (hx : c ∉ s.ctxDone) :
@@ -116,6 +137,8 @@ theorem refused_after_done {s : St} {c : Nat} (hd : s.done = true) (hc : c ∉ s
     step s (.queueBatched c) =
         some { s with handed := s.handed ++ [c], delivered := s.delivered ++ [⟨c, .connErr, none⟩] } ∧
     step s (.queueUnsendable c) =
+        some { s with handed := s.handed ++ [c], delivered := s.delivered ++ [⟨c, .connErr, none⟩] } ∧
+    step s (.queueDirectClosing c) =
         some { s with handed := s.handed ++ [c], delivered := s.delivered ++ [⟨c, .connErr, none⟩] } := by
   simp [step, hd, hc, hx]
 
@@ -124,7 +147,7 @@ and dropping; the model excludes that input for every entry point) -/
 theorem refused_excluded_when_ctx_ended {s : St} {c : Nat} (hd : s.done = true) (hc : c ∉ s.handed)
     (hx : c ∈ s.ctxDone) :
     step s (.queueDirect c) = none ∧ step s (.queueBatched c) = none ∧
-    step s (.queueUnsendable c) = none := by
+    step s (.queueUnsendable c) = none ∧ step s (.queueDirectClosing c) = none := by
   simp [step, hd, hc, hx]
 
 example : ∃ s, run (init 2) [.queueDirect 1, .readErr] = some s ∧ s.done = true ∧ 2 ∉ s.handed ∧
